@@ -101,8 +101,9 @@ def enricher_part(ck):
     tmpd = tempfile.mkdtemp(prefix="vc20e-")
     try:
         cf = os.path.join(tmpd, "enr.ndjson")
-        r = vf.require_ok(vf.tlc("EnricherRun", "EnricherRun.cfg", timeout=600, case_file=cf), "EnricherRun.cfg")
-        ck.add_tlc("EnricherRun.cfg", r, open(os.path.join(vf.SPEC, "cfg", "EnricherRun.cfg")).read().split("SPECIFICATION")[0].strip())
+        ecfg = "EnricherRun-t.cfg" if ck.thorough() else "EnricherRun.cfg"
+        r = vf.require_ok(vf.tlc("EnricherRun", ecfg, timeout=900, case_file=cf), ecfg)
+        ck.add_tlc(ecfg, r, open(os.path.join(vf.SPEC, "cfg", ecfg)).read().split("SPECIFICATION")[0].strip())
         lines = [l.rstrip("\n") for l in open(cf) if l.strip()]
         obs = vf.run_harness("vscanpipe", "enrich", infile=cf, timeout=1200)
     finally:
@@ -130,7 +131,7 @@ def enricher_part(ck):
         vf.log("CONFORMANCE-NOTE enricher.Run deviates from EnricherRun.tla (outside C20): %s" % json.dumps(d))
     ck.cov["beyond_property"] = {"EnricherRun.tla": {"cases_replayed_through_enricher.Run": len(obs), "divergences": len(div),
                                                      "first_divergences": div[:3],
-                                                     "rule": "every list of <=4 enrichers over (Requirements nil | set x DirectFS) x error x adds-a-package, "
+                                                     "rule": "every list of <=4 (thorough: 5) enrichers over (Requirements nil | set x DirectFS) x error x adds-a-package, "
                                                              "x scan root nil | relative real directory | virtual"}}
 
 
